@@ -102,8 +102,14 @@ func C01(o *world.Obs) *Result {
 					continue
 				}
 			} else {
-				r.Unspec("c01-invalid-max-stale")
-				continue
+				// An argument that is no delta-seconds value: the directive is either ignored or
+				// read leniently; no reading grants more than the largest number in its text
+				// (a valueless max-stale is the only form that accepts any staleness).
+				if minStaleness <= largestNumberIn(arg) {
+					r.Unspec("c01-invalid-max-stale")
+					continue
+				}
+				r.Label("stale-beyond-invalid-max-stale")
 			}
 		}
 		// the stored reply's own stale-while-revalidate window (any admissible version)
@@ -143,4 +149,24 @@ func seenStored(o *world.Obs, ex *world.Exchange) (int, bool) {
 		}
 	}
 	return 0, false
+}
+
+// largestNumberIn returns the largest run of decimal digits in s as seconds (saturating; 0 if none).
+func largestNumberIn(s string) model.Sec {
+	var best model.Sec
+	for i := 0; i < len(s); {
+		if s[i] < '0' || s[i] > '9' {
+			i++
+			continue
+		}
+		j := i
+		for j < len(s) && s[j] >= '0' && s[j] <= '9' {
+			j++
+		}
+		if n, ok := model.ParseDelta(s[i:j]); ok && n > best {
+			best = n
+		}
+		i = j
+	}
+	return best
 }
